@@ -80,8 +80,12 @@ class GridHooks(OneIterMixin, Hooks):
         return None
 
 
-def run_method(prog, cls, name, kwargs, st, hooks):
-    it = Interp(prog, hooks, max_paths=50000)
+class _GuardNotPositional(Exception):
+    """A guard of find_adjacents is not an affine test of the column / row position."""
+
+
+def run_method(prog, cls, name, kwargs, st, hooks, max_paths=50000):
+    it = Interp(prog, hooks, max_paths=max_paths)
     it.self_cls = cls
     fn = cls.lookup(name)
     if fn is None:
@@ -122,17 +126,24 @@ class AdjCase(GridHooks):
             return None
         atoms = [a for a in cond.a.atoms() if a != ('v', 'B')]
         if len(atoms) != 1 or atoms[0][0] != 'v' or not atoms[0][1].startswith('@'):
-            self.undecided.append(cond)
-            return None
+            return self.gave_up(cond)
         var = atoms[0]
         case = self.cases.get(var[1])
         if case is None:
-            self.undecided.append(cond)
-            return None
+            return self.gave_up(cond)
         r = decide_position(cond, var, case)
         if r is None:
-            self.undecided.append(cond)
+            return self.gave_up(cond)
         return r
+
+    abort_on_undecided = False
+
+    def gave_up(self, cond):
+        self.undecided.append(cond)
+        if self.abort_on_undecided:
+            # every further fork only multiplies paths the caller will discard
+            raise _GuardNotPositional(cond)
+        return None
 
 
 def decide_position(cond, var, case):
@@ -244,7 +255,11 @@ def check_adjacents(ck, prog, cls, deep=False):
             # is determined by the linearisation column + row*bins
             probe = AdjCase(ccase, rcase)
             probe.cases = {}
-            run_method(prog, cls, 'find_adjacents', {}, base_state(), probe)
+            try:
+                # only the loop structure is wanted from this pass (nothing is decided in it)
+                run_method(prog, cls, 'find_adjacents', {}, base_state(), probe, max_paths=400)
+            except AnalysisError:
+                pass
             rng = [r for r in probe.loop_records if isinstance(r.iter_value, Opaque) and
                    r.iter_value.label == 'range' and r.iter_value.args in ((B,), (Sym.const(0), B))]
             nodes = []
@@ -265,7 +280,12 @@ def check_adjacents(ck, prog, cls, deep=False):
             col, row = (outer_v, inner_v) if swap else (inner_v, outer_v)
             hk = AdjCase(ccase, rcase)
             hk.cases = {'@' + col: ccase, '@' + row: rcase}
-            run_method(prog, cls, 'find_adjacents', {}, base_state(), hk)
+            hk.abort_on_undecided = True
+            try:
+                run_method(prog, cls, 'find_adjacents', {}, base_state(), hk)
+            except _GuardNotPositional:
+                results = (set(), hk, 0)
+                break
             appended = set()
             base_idx = V('@' + col) + V('@' + row) * B
             ok_lin = True
@@ -297,7 +317,10 @@ def check_adjacents(ck, prog, cls, deep=False):
                 break
         inst = '%s[column %s, row %s]' % (q, ccase, rcase)
         if bad_nest:
-            raise AnalysisError('%s: %s' % (q, bad_nest))
+            # the row / column loop nest was not found: decide by small concrete grids instead
+            ck.saw('adjacency_fallback', '%s: %s' % (q, bad_nest))
+            fallback = True
+            break
         if results is None:
             ck.ob('C13-D1-linearisation', inst, False,
                   '%s: the cell whose list is extended is not column + row*bins_per_side' % q,
